@@ -4,6 +4,7 @@ import (
 	"fmt"
 	"go/constant"
 	"go/token"
+	"go/types"
 	"strings"
 
 	"golang.org/x/tools/go/ssa"
@@ -192,6 +193,14 @@ func cmpOf(v ssa.Value, truth bool) (cmp, bool) {
 	if !ok {
 		return cmp{}, false
 	}
+	if zx, isZero, ok := pathx.ZeroTest(b); ok {
+		// x > 0, x >= 1 … on a non-negative value: the same as x != 0
+		op := token.NEQ
+		if isZero == truth {
+			op = token.EQL
+		}
+		return cmp{op, zx, zeroConst}, true
+	}
 	op := b.Op
 	switch op {
 	case token.EQL, token.NEQ, token.LSS, token.LEQ, token.GTR, token.GEQ:
@@ -281,4 +290,73 @@ func paramOfType(fn *ssa.Function, typ string) *ssa.Parameter {
 func isParamOfType(v ssa.Value, typ string) bool {
 	p, ok := strip(v).(*ssa.Parameter)
 	return ok && p.Type().String() == typ
+}
+
+var zeroConst = ssa.NewConst(constant.MakeInt64(0), types.Typ[types.Int])
+
+// appendUintN recognises binary.{Big,Little}Endian.AppendUintNN(b, v) and
+// returns the destination, the value and the number of bytes appended.
+func appendUintN(v ssa.Value) (dst, val ssa.Value, n int64, ok bool) {
+	call, isCall := v.(*ssa.Call)
+	if !isCall {
+		return nil, nil, 0, false
+	}
+	f := call.Call.StaticCallee()
+	if f == nil || f.Pkg == nil || f.Pkg.Pkg.Path() != "encoding/binary" || len(call.Call.Args) != 3 {
+		return nil, nil, 0, false
+	}
+	switch f.Name() {
+	case "AppendUint16":
+		n = 2
+	case "AppendUint32":
+		n = 4
+	case "AppendUint64":
+		n = 8
+	default:
+		return nil, nil, 0, false
+	}
+	return call.Call.Args[1], call.Call.Args[2], n, true
+}
+
+// finalValue sees through a load of a captured variable that is assigned exactly
+// once in the enclosing function (an effectively final local).
+func finalValue(v ssa.Value) ssa.Value {
+	for i := 0; i < 4; i++ {
+		v = stripConv(v)
+		u, ok := v.(*ssa.UnOp)
+		if !ok || u.Op != token.MUL {
+			return v
+		}
+		fv, ok := u.X.(*ssa.FreeVar)
+		if !ok {
+			return v
+		}
+		fn := fv.Parent()
+		idx := -1
+		for j, x := range fn.FreeVars {
+			if x == fv {
+				idx = j
+			}
+		}
+		var stored ssa.Value
+		n := 0
+		for _, mc := range closureSites(fn) {
+			if idx < 0 || idx >= len(mc.Bindings) {
+				continue
+			}
+			if al, ok := mc.Bindings[idx].(*ssa.Alloc); ok {
+				for _, r := range *al.Referrers() {
+					if st, ok := r.(*ssa.Store); ok && st.Addr == al {
+						stored = st.Val
+						n++
+					}
+				}
+			}
+		}
+		if n != 1 || stored == nil {
+			return v
+		}
+		v = stored
+	}
+	return v
 }
